@@ -15,7 +15,9 @@ package handshake
 
 import (
 	"bytes"
+	"encoding/binary"
 	"fmt"
+	"math"
 	"testing"
 
 	"github.com/slackhq/nebula/cert"
@@ -85,11 +87,196 @@ func c06Exclusive(ek noiseutil.CipherState, others map[string]noiseutil.CipherSt
 	return ""
 }
 
+// On-path rewrites of the parts of a handshake packet that Noise does not authenticate (the 16-byte nebula
+// header). The Machine only looks at the subtype byte, so every one of these still reaches the Noise layer.
+type c06Rewrite struct {
+	name  string
+	stage int // 1 = initiator's message on its way to the responder, 2 = the reply on its way back, 3 = both
+	f     func(pkt []byte)
+}
+
+func c06SetCounter(v uint64) func([]byte) {
+	return func(p []byte) { binary.BigEndian.PutUint64(p[8:16], v) }
+}
+
+func c06Rewrites() []c06Rewrite {
+	var out []c06Rewrite
+	for _, v := range []uint64{0, 1, 2, 3, 7, 100, 8191, 8192, 1 << 32, 1 << 40, math.MaxUint64} {
+		for _, st := range []int{1, 2} {
+			if (st == 1 && v == 1) || (st == 2 && v == 2) {
+				continue // identity
+			}
+			out = append(out, c06Rewrite{fmt.Sprintf("stage%d-counter=%d", st, v), st, c06SetCounter(v)})
+		}
+	}
+	out = append(out, c06Rewrite{"both-counters=100", 3, c06SetCounter(100)})
+	for _, st := range []int{1, 2} {
+		out = append(out,
+			c06Rewrite{fmt.Sprintf("stage%d-reserved=ffff", st), st, func(p []byte) { p[2], p[3] = 0xff, 0xff }},
+			c06Rewrite{fmt.Sprintf("stage%d-reserved=0001", st), st, func(p []byte) { p[2], p[3] = 0, 1 }},
+			c06Rewrite{fmt.Sprintf("stage%d-remote-index=0", st), st, func(p []byte) { binary.BigEndian.PutUint32(p[4:8], 0) }},
+			c06Rewrite{fmt.Sprintf("stage%d-remote-index=ffffffff", st), st, func(p []byte) { binary.BigEndian.PutUint32(p[4:8], math.MaxUint32) }},
+			c06Rewrite{fmt.Sprintf("stage%d-remote-index^=5a5a5a5a", st), st, func(p []byte) { p[4] ^= 0x5a; p[5] ^= 0x5a; p[6] ^= 0x5a; p[7] ^= 0x5a }},
+			c06Rewrite{fmt.Sprintf("stage%d-version-nibble", st), st, func(p []byte) { p[0] ^= 0x20 }},
+			c06Rewrite{fmt.Sprintf("stage%d-type-nibble", st), st, func(p []byte) { p[0] ^= 0x05 }},
+		)
+	}
+	return out
+}
+
+type c06Env struct {
+	r        *verifkit.Reporter
+	pki      *vhsPKI
+	a, b     *vhsIdent
+	ci       vhsCipher
+	si, sr   c06Side
+	cfg      string
+	curve    string
+	recent   []c06Done
+	variants map[string]bool
+}
+
+// c06Session runs one IX session (optionally with on-path header rewrites) and, when both sides complete,
+// applies the whole agreement oracle. It returns "completed", "rejected" or "skipped".
+func (e *c06Env) session(idxI, idxR uint32, rw *c06Rewrite, keepRecent bool) string {
+	r, cfg := e.r, e.cfg
+	rec := map[string]any{"cfg": cfg, "idxI": idxI, "idxR": idxR}
+	if rw != nil {
+		cfg += " on-path rewrite " + rw.name
+		rec["rewrite"] = rw.name
+	}
+	mi, err := vhsMachine(e.a, e.ci, e.si.start, e.pki.verifier(), idxI, true, e.si.have...)
+	if err != nil {
+		r.Inconclusive(cfg + ": NewMachine(initiator): " + err.Error())
+		return "skipped"
+	}
+	mr, err := vhsMachine(e.b, e.ci, e.sr.start, e.pki.verifier(), idxR, false, e.sr.have...)
+	if err != nil {
+		r.Inconclusive(cfg + ": NewMachine(responder): " + err.Error())
+		return "skipped"
+	}
+	var ra, rb *Result
+	var m1, m2 []byte
+	var stepErr string
+	if r.Guard("C06/panic", func() any { return rec }, func() {
+		var err error
+		if m1, err = mi.Initiate(nil); err != nil {
+			stepErr = "Initiate: " + err.Error()
+			return
+		}
+		d1 := bytes.Clone(m1)
+		if rw != nil && rw.stage&1 != 0 {
+			rw.f(d1)
+		}
+		rec["msg1_delivered"] = verifkit.Hex(d1)
+		if m2, rb, err = mr.ProcessPacket(nil, d1); err != nil {
+			stepErr = "responder: " + err.Error()
+			return
+		}
+		d2 := bytes.Clone(m2)
+		if rw != nil && rw.stage&2 != 0 {
+			rw.f(d2)
+		}
+		rec["msg2_delivered"] = verifkit.Hex(d2)
+		if _, ra, err = mi.ProcessPacket(nil, d2); err != nil {
+			stepErr = "initiator: " + err.Error()
+		}
+	}) {
+		return "skipped"
+	}
+	r.Eval(1)
+	if stepErr != "" || ra == nil || rb == nil {
+		if rw != nil {
+			// a rewritten packet may be refused; that is not this property's business
+			r.Count("variant-rejected", 1)
+			return "rejected"
+		}
+		// honest sessions are expected to complete; if they do not, nothing can be judged
+		r.Count("not-completed", 1)
+		if r.Counter("not-completed") <= 3 { // the rest is only counted
+			r.Inconclusive(fmt.Sprintf("%s: honest session did not complete (%s)", cfg, stepErr))
+		}
+		return "rejected"
+	}
+	if rw != nil {
+		r.Count("variant-completed", 1)
+		e.variants[rw.name] = true
+	} else {
+		r.Count("completed", 1)
+	}
+	// raw noise.CipherState interop (internal nonce counters, both start at 0). Must come first:
+	// noise.CipherState.Cipher(), used by the data-plane wrappers, invalidates Encrypt/Decrypt.
+	for i := 0; i < 3; i++ {
+		c1, e1 := ra.EKey.Encrypt(nil, []byte("ad"), []byte("ping"))
+		p1, e2 := rb.DKey.Decrypt(nil, []byte("ad"), c1)
+		c2, e3 := rb.EKey.Encrypt(nil, []byte("ad"), []byte("pong"))
+		p2, e4 := ra.DKey.Decrypt(nil, []byte("ad"), c2)
+		if e1 != nil || e2 != nil || e3 != nil || e4 != nil || !bytes.Equal(p1, []byte("ping")) || !bytes.Equal(p2, []byte("pong")) {
+			r.Violation("C06/key-mismatch", cfg+": raw noise CipherState round trip failed", rec)
+			return "completed"
+		}
+	}
+	rec["initiator_message_index"], rec["responder_message_index"] = ra.MessageIndex, rb.MessageIndex
+	if w := vhsAgreement(ra, rb); w != "" {
+		r.Violation("C06/"+c06Class(w), cfg+": "+w, rec)
+		return "completed"
+	}
+	if ra.LocalIndex != idxI || rb.LocalIndex != idxR {
+		r.Violation("C06/local-index-not-allocated", fmt.Sprintf("%s: allocators returned %d/%d, results report %d/%d", cfg, idxI, idxR, ra.LocalIndex, rb.LocalIndex), rec)
+	}
+	if !ra.Initiator || rb.Initiator {
+		r.Violation("C06/initiator-flag", cfg+": Initiator flags wrong", rec)
+	}
+	// exclusivity: own side, encrypt keys, other sessions
+	ae, ad := noiseutil.NewCipherState(ra.EKey, ra.Cipher), noiseutil.NewCipherState(ra.DKey, ra.Cipher)
+	be, bd := noiseutil.NewCipherState(rb.EKey, rb.Cipher), noiseutil.NewCipherState(rb.DKey, rb.Cipher)
+	othersA := map[string]noiseutil.CipherState{"own DKey": ad, "peer EKey": be}
+	othersB := map[string]noiseutil.CipherState{"own DKey": bd, "peer EKey": ae}
+	for i, o := range e.recent {
+		othersA[fmt.Sprintf("other session %d responder DKey", i)] = noiseutil.NewCipherState(o.b.DKey, o.b.Cipher)
+		othersA[fmt.Sprintf("other session %d initiator DKey", i)] = noiseutil.NewCipherState(o.a.DKey, o.a.Cipher)
+		othersB[fmt.Sprintf("other session %d responder DKey", i)] = noiseutil.NewCipherState(o.b.DKey, o.b.Cipher)
+		othersB[fmt.Sprintf("other session %d initiator DKey", i)] = noiseutil.NewCipherState(o.a.DKey, o.a.Cipher)
+	}
+	if w := c06Exclusive(ae, othersA); w != "" {
+		r.Violation("C06/key-not-exclusive", cfg+": initiator's sending key "+w, rec)
+	}
+	if w := c06Exclusive(be, othersB); w != "" {
+		r.Violation("C06/key-not-exclusive", cfg+": responder's sending key "+w, rec)
+	}
+	r.Count("exclusivity-probes", 2*(len(othersA)+len(othersB)))
+	// certificates reported are the peer's (any of its issued versions)
+	if ra.RemoteCert == nil || rb.RemoteCert == nil || !bytes.Equal(ra.RemoteCert.Certificate.PublicKey(), e.b.pub) || !bytes.Equal(rb.RemoteCert.Certificate.PublicKey(), e.a.pub) {
+		r.Violation("C06/wrong-peer-cert", cfg+": completed sides do not report each other's certificate", rec)
+	} else if rw == nil {
+		neg := fmt.Sprintf("I sent v%d, R sent v%d; I.MyCert v%d R.MyCert v%d", rb.RemoteCert.Certificate.Version(), ra.RemoteCert.Certificate.Version(), ra.MyCert.Version(), rb.MyCert.Version())
+		r.DistinctClass(fmt.Sprintf("%s/%s init=%s resp=%s: %s", e.curve, e.ci.name, e.si.name, e.sr.name, neg))
+		if ra.MyCert.Version() != rb.RemoteCert.Certificate.Version() || rb.MyCert.Version() != ra.RemoteCert.Certificate.Version() {
+			r.Count("mycert-differs-from-what-peer-saw", 1)
+		}
+	}
+	if rw != nil {
+		r.Distinct(fmt.Sprintf("%s|%d|%d|%s", e.cfg, idxI, idxR, rw.name))
+		r.Count("variant-agreed", 1)
+	} else {
+		r.Distinct(fmt.Sprintf("%s|%d|%d", e.cfg, idxI, idxR))
+	}
+	if keepRecent {
+		e.recent = append(e.recent, c06Done{ra, rb, cfg})
+		if len(e.recent) > 3 {
+			e.recent = e.recent[1:]
+		}
+	}
+	return "completed"
+}
+
 func TestVerifC06Agreement(t *testing.T) {
 	r := verifkit.NewReporter(t, "C06", "agree",
-		"honest IX sessions between real Machines over the matrix curve x cipher x initiator versions x responder versions x index-allocator shape; distinct = distinct (configuration, negotiated certificate versions) classes plus distinct (configuration, initiator index, responder index) sessions")
+		"honest IX sessions between real Machines over the matrix curve x cipher x initiator versions x responder versions x index-allocator shape; every session is followed by three more sessions of the same configuration whose delivered packets had unauthenticated header fields rewritten on path (counter of either message set to 0,1,2,3,7,100,8191,8192,2^32,2^40,2^64-1, reserved bits, remote index, version/type nibbles; 35 rewrites, rotating so that every configuration sees all of them); whenever both sides complete the full agreement oracle applies; distinct = distinct (configuration, negotiated certificate versions) classes plus distinct (configuration, indexes[, rewrite]) sessions")
 	defer r.Done()
 	per := verifkit.Scale(12, 2000)
+	rws := c06Rewrites()
+	seenVariants := map[string]bool{}
 	caseNo := 0
 	for _, cv := range vhsCurves {
 		pki := vhsNewPKI(cv)
@@ -99,126 +286,36 @@ func TestVerifC06Agreement(t *testing.T) {
 			var recent []c06Done // other sessions of the same curve/cipher for cross-session exclusivity
 			for _, si := range c06Sides {
 				for _, sr := range c06Sides {
+					vno := 0 // rotates through the rewrites inside one (curve, cipher, versions) configuration
 					for _, mode := range c06IdxModes {
 						for k := 0; k < per; k++ {
 							caseNo++
+							vno += 3
 							if !verifkit.Mine(caseNo) {
 								continue
 							}
 							rng := verifkit.SubRand("C06", caseNo)
 							idxI, idxR := c06Indexes(mode, rng.Uint32)
-							cfg := fmt.Sprintf("%s/%s init=%s resp=%s idx=%s", cv.name, ci.name, si.name, sr.name, mode)
-							rec := map[string]any{"cfg": cfg, "idxI": idxI, "idxR": idxR}
-							r.Pre("case %d %s %d %d", caseNo, cfg, idxI, idxR)
-							mi, err := vhsMachine(a, ci, si.start, pki.verifier(), idxI, true, si.have...)
-							if err != nil {
-								r.Inconclusive(cfg + ": NewMachine(initiator): " + err.Error())
-								continue
+							e := &c06Env{r: r, pki: pki, a: a, b: b, ci: ci, si: si, sr: sr, curve: cv.name, recent: recent, variants: seenVariants,
+								cfg: fmt.Sprintf("%s/%s init=%s resp=%s idx=%s", cv.name, ci.name, si.name, sr.name, mode)}
+							r.Pre("case %d %s %d %d", caseNo, e.cfg, idxI, idxR)
+							if e.session(idxI, idxR, nil, true) == "completed" && k == 0 && mode == "random" {
+								r.Sample(map[string]any{"cfg": e.cfg, "idxI": idxI, "idxR": idxR})
 							}
-							mr, err := vhsMachine(b, ci, sr.start, pki.verifier(), idxR, false, sr.have...)
-							if err != nil {
-								r.Inconclusive(cfg + ": NewMachine(responder): " + err.Error())
-								continue
+							for j := 0; j < 3; j++ {
+								rw := rws[(vno+j)%len(rws)]
+								r.Pre("case %d %s %d %d rewrite %s", caseNo, e.cfg, idxI, idxR, rw.name)
+								e.session(idxI, idxR, &rw, false)
 							}
-							var ra, rb *Result
-							var m1, m2 []byte
-							var stepErr string
-							if r.Guard("C06/panic", func() any { return rec }, func() {
-								var err error
-								if m1, err = mi.Initiate(nil); err != nil {
-									stepErr = "Initiate: " + err.Error()
-									return
-								}
-								if m2, rb, err = mr.ProcessPacket(nil, m1); err != nil {
-									stepErr = "responder: " + err.Error()
-									return
-								}
-								if _, ra, err = mi.ProcessPacket(nil, m2); err != nil {
-									stepErr = "initiator: " + err.Error()
-								}
-							}) {
-								continue
-							}
-							r.Eval(1)
-							if stepErr != "" || ra == nil || rb == nil {
-								// honest sessions are expected to complete; if they do not, nothing can be judged
-								r.Count("not-completed", 1)
-								if r.Counter("not-completed") <= 3 { // the rest is only counted
-									r.Inconclusive(fmt.Sprintf("%s: honest session did not complete (%s)", cfg, stepErr))
-								}
-								continue
-							}
-							r.Count("completed", 1)
-							rec["msg1"], rec["msg2"] = verifkit.Hex(m1), verifkit.Hex(m2)
-							// raw noise.CipherState interop (internal nonce counters, both start at 0). Must come first:
-							// noise.CipherState.Cipher(), used by the data-plane wrappers, invalidates Encrypt/Decrypt.
-							rawBad := false
-							for i := 0; i < 3; i++ {
-								c1, e1 := ra.EKey.Encrypt(nil, []byte("ad"), []byte("ping"))
-								p1, e2 := rb.DKey.Decrypt(nil, []byte("ad"), c1)
-								c2, e3 := rb.EKey.Encrypt(nil, []byte("ad"), []byte("pong"))
-								p2, e4 := ra.DKey.Decrypt(nil, []byte("ad"), c2)
-								if e1 != nil || e2 != nil || e3 != nil || e4 != nil || !bytes.Equal(p1, []byte("ping")) || !bytes.Equal(p2, []byte("pong")) {
-									r.Violation("C06/key-mismatch", cfg+": raw noise CipherState round trip failed", rec)
-									rawBad = true
-									break
-								}
-							}
-							if rawBad {
-								continue
-							}
-							if w := vhsAgreement(ra, rb); w != "" {
-								r.Violation("C06/"+c06Class(w), cfg+": "+w, rec)
-								continue
-							}
-							if ra.LocalIndex != idxI || rb.LocalIndex != idxR {
-								r.Violation("C06/local-index-not-allocated", fmt.Sprintf("%s: allocators returned %d/%d, results report %d/%d", cfg, idxI, idxR, ra.LocalIndex, rb.LocalIndex), rec)
-							}
-							if !ra.Initiator || rb.Initiator {
-								r.Violation("C06/initiator-flag", cfg+": Initiator flags wrong", rec)
-							}
-							// exclusivity: own side, encrypt keys, other sessions
-							ae, ad := noiseutil.NewCipherState(ra.EKey, ra.Cipher), noiseutil.NewCipherState(ra.DKey, ra.Cipher)
-							be, bd := noiseutil.NewCipherState(rb.EKey, rb.Cipher), noiseutil.NewCipherState(rb.DKey, rb.Cipher)
-							othersA := map[string]noiseutil.CipherState{"own DKey": ad, "peer EKey": be}
-							othersB := map[string]noiseutil.CipherState{"own DKey": bd, "peer EKey": ae}
-							for i, o := range recent {
-								othersA[fmt.Sprintf("other session %d responder DKey", i)] = noiseutil.NewCipherState(o.b.DKey, o.b.Cipher)
-								othersA[fmt.Sprintf("other session %d initiator DKey", i)] = noiseutil.NewCipherState(o.a.DKey, o.a.Cipher)
-								othersB[fmt.Sprintf("other session %d responder DKey", i)] = noiseutil.NewCipherState(o.b.DKey, o.b.Cipher)
-								othersB[fmt.Sprintf("other session %d initiator DKey", i)] = noiseutil.NewCipherState(o.a.DKey, o.a.Cipher)
-							}
-							if w := c06Exclusive(ae, othersA); w != "" {
-								r.Violation("C06/key-not-exclusive", cfg+": initiator's sending key "+w, rec)
-							}
-							if w := c06Exclusive(be, othersB); w != "" {
-								r.Violation("C06/key-not-exclusive", cfg+": responder's sending key "+w, rec)
-							}
-							r.Count("exclusivity-probes", 2*(len(othersA)+len(othersB)))
-							// certificates reported are the peer's (any of its issued versions)
-							if ra.RemoteCert == nil || rb.RemoteCert == nil || !bytes.Equal(ra.RemoteCert.Certificate.PublicKey(), b.pub) || !bytes.Equal(rb.RemoteCert.Certificate.PublicKey(), a.pub) {
-								r.Violation("C06/wrong-peer-cert", cfg+": completed sides do not report each other's certificate", rec)
-							} else {
-								neg := fmt.Sprintf("I sent v%d, R sent v%d; I.MyCert v%d R.MyCert v%d", rb.RemoteCert.Certificate.Version(), ra.RemoteCert.Certificate.Version(), ra.MyCert.Version(), rb.MyCert.Version())
-								r.DistinctClass(fmt.Sprintf("%s/%s init=%s resp=%s: %s", cv.name, ci.name, si.name, sr.name, neg))
-								if ra.MyCert.Version() != rb.RemoteCert.Certificate.Version() || rb.MyCert.Version() != ra.RemoteCert.Certificate.Version() {
-									r.Count("mycert-differs-from-what-peer-saw", 1)
-								}
-							}
-							r.Distinct(fmt.Sprintf("%s|%d|%d", cfg, idxI, idxR))
-							if k == 0 && mode == "random" {
-								r.Sample(map[string]any{"cfg": cfg, "idxI": idxI, "idxR": idxR, "message_index": ra.MessageIndex})
-							}
-							recent = append(recent, c06Done{ra, rb, cfg})
-							if len(recent) > 3 {
-								recent = recent[1:]
-							}
+							recent = e.recent
 						}
 					}
 				}
 			}
 		}
 	}
+	r.Info("rewrites-after-which-both-sides-completed", len(seenVariants))
+	r.Info("rewrites-defined", len(rws))
 }
 
 func c06Class(w string) string {
